@@ -241,9 +241,10 @@ def _run_history(case):
         res[k] += res3[k]
     for k in ("failures", "errors", "nondeterministic", "raises_alone"):
         res[k] = list(res[k]) + list(res3[k])
-    if res["raises_alone"]:
-        raise RuntimeError(f"harness: operations {res['raises_alone']} raise on a fresh model")
     viol, seen = [], set()
+    for n_ in sorted(set(res["raises_alone"])):
+        # every operation of the alphabet is a valid call on valid input (and returns on the pinned tree)
+        viol.append((f"{ID}|{mname}|history|raises-on-a-fresh-model|{n_.split('(')[0]}", f"{mname} model (rotations {case['rot']}, {case['ntemp']} template(s)): {n_} raised {res['raises_alone_msg'].get(n_, res3['raises_alone_msg'].get(n_))}"))
     for hist, why in res["failures"]:
         sg = f"{ID}|{mname}|history|{hist[-1].split('(')[0]}-after-{hist[-2].split('(')[0]}"
         if sg not in seen:
